@@ -50,7 +50,8 @@ PROPS["C09"] = {
     "pkg": "c09", "level": "exploration",
     "rule": ("rapid state machine over one nsqd.DiskQueue on tmpfs: put(m) with |m| in {0, tiny, around maxBytesPerFile-4, up to 3 segments; 1 in 60: 64 KiB .. 3 MiB}, "
              "get (or, when the model is empty, a negative check that nothing arrives), close+reopen; maxBytesPerFile in {1..1000}, "
-             "syncEvery in {1..8, never}; backlog (own sub-check): segments of 100 KB - 1 MB, thousands of small messages of a fixed or varied size, a consumer that lags by "
+             "syncEvery in {1..8, never}; the periodic-sync timer is one hour (syncs count-driven, two histories in three) or 2 ms with an extra operation 'idle' "
+             "that lets several timer periods pass in whatever state the queue is in (one in three); backlog (own sub-check): segments of 100 KB - 1 MB, thousands of small messages of a fixed or varied size, a consumer that lags by "
              "up to hundreds of KB, clean reopen at drawn points, full drain at the end. oracle = slice model: every get returns the model head byte-for-byte, Depth() equals the model "
              "length after every put / completed get / reopen, final reopen drains to exactly the model and then nothing. Non-trivial: "
              "history with a reopen while messages are pending, a reopen directly after a put that rolled a segment, or a message larger "
